@@ -245,13 +245,18 @@ pub fn context(c: usize, e: &E) -> Program {
 // ---------------------------------------------------------------------------
 // Two-module variant: `m.oal: let g x = BODY;`  `main.oal: use "m.oal" [as m]; SITE[g ARG]`
 
-pub const N_SITES: usize = 6;
+pub const N_SITES: usize = 12;
 
 pub fn two_module(body: &E, arg: &E, site: usize) -> Program {
-    let qualified = site % 2 == 1;
+    // Sites 6..=8: qualified import of a module whose `v` is another object than main's `v`
+    // (the two declarations share nothing but the name).
+    // Sites 9..=11: the same with a `v` of another kind (a URI).
+    let other_v = site >= 6;
+    let uri_v = site >= 9;
+    let (qualified, form) = if other_v { (true, (site - 6) % 3) } else { (site % 2 == 1, site / 2) };
     let q = if qualified { Some("m".to_owned()) } else { None };
     let app = E::App(q.clone(), "g".into(), vec![arg.clone()]);
-    let main_stmt = match site / 2 {
+    let main_stmt = match form {
         0 => res_get(content(app)),
         1 => res_get(app),
         _ => Stmt::Res(app),
@@ -269,7 +274,13 @@ pub fn two_module(body: &E, arg: &E, site: usize) -> Program {
             Module {
                 name: "m.oal".into(),
                 stmts: vec![
-                    let_("v", obj(vec![prop("q", E::Prim(Prim::Str))])),
+                    if uri_v {
+                        let_("v", E::Uri(vec![Seg::Lit("mv".into())], None))
+                    } else if other_v {
+                        let_("v", obj(vec![prop("mq", E::Prim(Prim::Num)), prop("mr", E::Prim(Prim::Bool))]))
+                    } else {
+                        let_("v", obj(vec![prop("q", E::Prim(Prim::Str))]))
+                    },
                     fun("f", &["y"], arr(var("y"))),
                     fun("g", &["x"], body.clone()),
                 ],
@@ -278,75 +289,123 @@ pub fn two_module(body: &E, arg: &E, site: usize) -> Program {
     }
 }
 
-/// Merges the modules of a program into one (imports dropped, qualifiers stripped).
-/// Returns None when two modules declare the same name with different bodies.
-pub fn merge_modules(p: &Program) -> Option<Program> {
-    fn strip(e: &E) -> E {
-        match e {
-            E::Var(_, n) => E::Var(None, n.clone()),
-            E::App(_, f, a) => E::App(None, f.clone(), a.iter().map(strip).collect()),
-            E::Obj(v) => E::Obj(v.iter().map(strip).collect()),
-            E::Arr(i) => E::Arr(Box::new(strip(i))),
-            E::Prop(n, m, v) => E::Prop(n.clone(), *m, Box::new(strip(v))),
-            E::Mark(i, r) => E::Mark(Box::new(strip(i)), *r),
-            E::Op(o, v) => E::Op(*o, v.iter().map(strip).collect()),
-            E::Content(m, b) => E::Content(
-                m.iter().map(|(k, e)| (*k, strip(e))).collect(),
-                b.as_ref().map(|b| Box::new(strip(b))),
-            ),
-            E::Uri(s, p) => E::Uri(
-                s.iter()
-                    .map(|s| match s {
-                        Seg::Var(v) => Seg::Var(Box::new(strip(v))),
-                        o => o.clone(),
-                    })
-                    .collect(),
-                p.as_ref().map(|p| p.iter().map(strip).collect()),
-            ),
-            E::Xfer {
-                methods,
-                params,
-                domain,
-                range,
-            } => E::Xfer {
-                methods: methods.clone(),
-                params: params.as_ref().map(|p| p.iter().map(strip).collect()),
-                domain: domain.as_ref().map(|d| Box::new(strip(d))),
-                range: Box::new(strip(range)),
-            },
-            E::Rel(u, x) => E::Rel(Box::new(strip(u)), x.iter().map(strip).collect()),
-            E::Rec(x, b) => E::Rec(x.clone(), Box::new(strip(b))),
-            E::Paren(i) => E::Paren(Box::new(strip(i))),
-            E::Ann(a, i, b) => E::Ann(a.clone(), Box::new(strip(i)), b.clone()),
-            o => o.clone(),
+/// Applies `f` to the (qualifier, name) of every variable and application of a term.
+fn map_names(e: &E, f: &dyn Fn(Option<&str>, &str) -> (Option<String>, String)) -> E {
+    use serde_json::Value;
+    fn walk(v: &mut Value, f: &dyn Fn(Option<&str>, &str) -> (Option<String>, String)) {
+        match v {
+            Value::Object(m) => {
+                for (k, x) in m.iter_mut() {
+                    if (k == "Var" || k == "App") && x.as_array().is_some_and(|a| a.len() >= 2 && a[1].is_string()) {
+                        let a = x.as_array_mut().unwrap();
+                        let q = a[0].as_str().map(|s| s.to_owned());
+                        let n = a[1].as_str().unwrap().to_owned();
+                        let (nq, nn) = f(q.as_deref(), &n);
+                        a[0] = nq.map(Value::String).unwrap_or(Value::Null);
+                        a[1] = Value::String(nn);
+                    }
+                    walk(x, f);
+                }
+            }
+            Value::Array(a) => {
+                for x in a.iter_mut() {
+                    walk(x, f);
+                }
+            }
+            _ => {}
         }
     }
+    let mut v = serde_json::to_value(e).expect("term to json");
+    walk(&mut v, f);
+    serde_json::from_value(v).expect("term from json")
+}
+
+/// Merges the modules of a program into one (imports dropped, qualifiers stripped). A name
+/// that main and a module imported *with a qualifier* both declare, with different bodies,
+/// keeps both declarations: the imported one is renamed (`v` of m.oal becomes `v__m`)
+/// together with its uses inside that module and its qualified uses in main. Returns None
+/// when such a clash comes through an unqualified import or between two imported modules.
+pub fn merge_modules(p: &Program) -> Option<Program> {
+    let strip = |e: &E| map_names(e, &|_, n| (None, n.to_owned()));
+    let main = p.modules.first()?;
+    let decls_of = |m: &Module| -> Vec<(String, Stmt)> {
+        m.stmts
+            .iter()
+            .filter_map(|s| match s {
+                Stmt::Let { anns, name, params, body } => Some((
+                    name.clone(),
+                    Stmt::Let { anns: anns.clone(), name: name.clone(), params: params.clone(), body: strip(body) },
+                )),
+                _ => None,
+            })
+            .collect()
+    };
+    let main_decls = decls_of(main);
+    // (module name, qualifier) of main's imports
+    let imports: Vec<(String, Option<String>)> = main
+        .stmts
+        .iter()
+        .filter_map(|s| match s {
+            Stmt::Use(path, q) => Some((path.trim_start_matches("./").to_owned(), q.clone())),
+            _ => None,
+        })
+        .collect();
+    // per imported module: the names to rename
+    let mut renames: Vec<(String, Option<String>, Vec<String>)> = Vec::new();
+    for m in p.modules.iter().skip(1) {
+        let clashing: Vec<String> = decls_of(m)
+            .into_iter()
+            .filter(|(n, d)| main_decls.iter().any(|(mn, md)| mn == n && md != d))
+            .map(|(n, _)| n)
+            .collect();
+        if clashing.is_empty() {
+            continue;
+        }
+        match imports.iter().find(|(path, _)| *path == m.name) {
+            Some((_, Some(q))) => renames.push((m.name.clone(), Some(q.clone()), clashing)),
+            _ => return None,
+        }
+    }
+    let suffix = |module: &str| format!("__{}", module.trim_end_matches(".oal").replace('/', "_"));
     let mut stmts: Vec<Stmt> = Vec::new();
     // Imported modules first, main last: order is irrelevant for declarations.
     for m in p.modules.iter().skip(1).chain(p.modules.iter().take(1)) {
+        let is_main = std::ptr::eq(m, main);
+        let own: Option<&(String, Option<String>, Vec<String>)> = renames.iter().find(|(name, _, _)| *name == m.name);
+        let f = |q: Option<&str>, n: &str| -> (Option<String>, String) {
+            if is_main {
+                if let Some(q) = q {
+                    if let Some((module, _, names)) = renames.iter().find(|(_, rq, _)| rq.as_deref() == Some(q)) {
+                        if names.iter().any(|x| x == n) {
+                            return (None, format!("{n}{}", suffix(module)));
+                        }
+                    }
+                }
+                (None, n.to_owned())
+            } else {
+                match own {
+                    Some((module, _, names)) if q.is_none() && names.iter().any(|x| x == n) => (None, format!("{n}{}", suffix(module))),
+                    _ => (None, n.to_owned()),
+                }
+            }
+        };
         for s in m.stmts.iter() {
             match s {
                 Stmt::Use(..) => {}
-                Stmt::Let {
-                    anns,
-                    name,
-                    params,
-                    body,
-                } => {
-                    let new = Stmt::Let {
-                        anns: anns.clone(),
-                        name: name.clone(),
-                        params: params.clone(),
-                        body: strip(body),
+                Stmt::Let { anns, name, params, body } => {
+                    let name = match own {
+                        Some((module, _, names)) if names.contains(name) => format!("{name}{}", suffix(module)),
+                        _ => name.clone(),
                     };
-                    let clash = stmts.iter().find(|t| matches!(t, Stmt::Let { name: n, .. } if n == name));
+                    let new = Stmt::Let { anns: anns.clone(), name: name.clone(), params: params.clone(), body: map_names(body, &f) };
+                    let clash = stmts.iter().find(|t| matches!(t, Stmt::Let { name: n, .. } if *n == name));
                     match clash {
                         Some(t) if *t == new => {}
                         Some(_) => return None,
                         None => stmts.push(new),
                     }
                 }
-                Stmt::Res(e) => stmts.push(Stmt::Res(strip(e))),
+                Stmt::Res(e) => stmts.push(Stmt::Res(map_names(e, &f))),
             }
         }
     }
